@@ -130,9 +130,21 @@ def face_normal_area(prog):
                 exact = c.get("k") == "BinaryOperator" and c.get("op") in ("==", "!=") and lit.get("k") in ("FloatingLiteral", "IntegerLiteral") and float(lit["v"]) == 0.0
                 if not exact:
                     raise NormalGuard(fn, n, "the normalisation of the face normal is skipped under '%s' instead of only for an exactly zero norm: faces whose (tiny but non-zero) area falls under that absolute threshold get a zero normal, so pressure and tension forces silently vanish on them (net force/torque no longer zero for small cells)" % short(c, 70))
+    # same for the statement form: an if that returns early / assigns the results under a test of the norm
+    stmts = []
+    for st in fn["body"].get("c", []):
+        if st.get("k") == "IfStmt" and any(x.get("k") == "ReturnStmt" or (x.get("k") == "CXXMemberCallExpr" and x.get("callee") in ("face::set_area", "face::set_normal")) for x in walk(st)):
+            c = strip(st["cond"])
+            lit = strip(c["c"][1]) if c.get("k") == "BinaryOperator" and len(c.get("c", [])) == 2 else {}
+            exact = c.get("k") == "BinaryOperator" and c.get("op") == "==" and lit.get("k") in ("FloatingLiteral", "IntegerLiteral") and float(lit["v"]) == 0.0
+            if not exact or st.get("else") is not None:
+                raise NormalGuard(fn, st, "the face normal and area are not computed under '%s' (only an exactly zero norm is a legitimate reason): faces whose tiny but non-zero area falls under that absolute threshold get a zero area and a zero normal, "
+                                          "so the cell area no longer is the sum of the triangle areas, does not scale with the square of a uniform scaling, and pressure and tension forces silently vanish on those faces" % short(c, 70))
+            continue     # taken only for an exactly zero norm; the identities below are stated for a non-degenerate face (|n| > 0)
+        stmts.append(st)
     ev = S.SymEval(prog, fn)
     try:
-        ev.exec_block(fn["body"].get("c", []))
+        ev.exec_block(stmts)
     except S.Decline as e:
         raise AnalysisBroken("update_face_normal_and_area cannot be opened: %s" % e)
     return ev
